@@ -188,3 +188,17 @@ def run_tlc_in(wd, module, cfg, env=None, workers=None, heap="6g", timeout=900, 
         subprocess.run(["pkill", "-f", "tlc2.TL[C].*" + wd], check=False)
         raise Infra("TLC timeout on %s/%s after %ds" % (module, cfg, timeout))
     return {"out": r.stdout + r.stderr, "rc": r.returncode, "wall": time.time() - t0}
+
+
+def parse_path(s):
+    if isinstance(s, dict):
+        return s
+    p = {"abs": s.startswith("/"), "parts": [x for x in s.strip("/").split("/")] if s.strip("/") else []}
+    if s and not s.startswith("/"):
+        p["parts"] = s.split("/")
+    return p
+
+
+def mkcall(op, p="", q="", flag=None, perm=0, data=None, n=0, off=0, wh=0, h=0, uid=0, gid=0, v=0):
+    return {"op": op, "v": v, "p": parse_path(p), "q": parse_path(q), "flag": flag or [], "perm": perm,
+            "data": data or [], "n": n, "off": off, "wh": wh, "h": h, "uid": uid, "gid": gid}
